@@ -180,16 +180,24 @@ func VerifH11a() {
 				case 0:
 					return st.Set(ctx, key, val)
 				case 1:
+					if key == "b" {
+						// short reads through io.Copy's reused buffer, the last one with io.EOF
+						return st.SetReader(ctx, key, &dataEOFReader{b: val})
+					}
 					return st.SetReader(ctx, key, bytes.NewReader(val))
 				}
 				f, err := st.Create(ctx, key)
 				if err != nil {
 					return err
 				}
+				// both writes come from one scratch buffer, overwritten once Write has returned
 				h := len(val) / 2
-				_, werr := f.Write(val[:h])
+				scratch := make([]byte, len(val)-h)
+				_, werr := f.Write(scratch[:copy(scratch, val[:h])])
+				scribble(scratch)
 				if werr == nil {
-					_, werr = f.Write(val[h:])
+					_, werr = f.Write(scratch[:copy(scratch, val[h:])])
+					scribble(scratch)
 				}
 				cerr := f.Close()
 				if werr != nil {
